@@ -631,6 +631,19 @@ def check_one_step(ctx, rule='R-ONESTEP'):
                                           'layer and step counts derived from it are wrong (the file written for one time step cannot be read back)'
                                           % (', '.join(sorted(used)), ', '.join(sorted(used)))), oid=oid)
                     continue
+                # (d) counting while loop: `while I < N: ... if differs: break ... I += 1` - when no record differs the counter has reached
+                # the bound, which is the record count the for/else form sets by hand
+                if isinstance(st, ast.While) and any(isinstance(x, ast.Break) for x in ast.walk(st)):
+                    t_ = st.test
+                    if isinstance(t_, ast.Compare) and len(t_.ops) == 1 and isinstance(t_.ops[0], ast.Lt) and isinstance(t_.left, ast.Name):
+                        cn = t_.left.id
+                        incs = [s2 for s2 in st.body if isinstance(s2, ast.AugAssign) and isinstance(s2.target, ast.Name) and s2.target.id == cn
+                                and isinstance(s2.op, ast.Add) and isinstance(s2.value, ast.Constant) and s2.value.value == 1]
+                        used = _loaded_after(fn, st, set([cn]))
+                        if incs and used:
+                            n += 1
+                            ctx.ok(rule, '%s:while %s' % (fmt, norm(t_)), where, 'counting loop: %s equals its bound %s when no record differs' % (cn, norm(t_.comparators[0])))
+                    continue
                 if not isinstance(st, ast.Assign):
                     continue
                 # (c) argmax of the comparison: 0 when no record differs
@@ -670,7 +683,9 @@ def check_one_step(ctx, rule='R-ONESTEP'):
                     via = None
                     if isinstance(inner, ast.Name):
                         for s2 in iter_stmts(fn.body):
-                            if s2.lineno < st.lineno and isinstance(s2, ast.Assign) and len(s2.targets) == 1 and isinstance(s2.targets[0], ast.Name) \
+                            if s2 is st:
+                                break        # statements in program order (inlined helper statements share the line of their call site)
+                            if isinstance(s2, ast.Assign) and len(s2.targets) == 1 and isinstance(s2.targets[0], ast.Name) \
                                     and s2.targets[0].id == inner.id:
                                 via = s2 if (_zero_index(s2.value) and _is_where(s2.value.value)) or _is_where(s2.value) else None
                     if not direct and via is None:
